@@ -7,7 +7,11 @@ from .. import common, refgraph
 PROP = 'C12'
 LABELS = [(True, True), (False, True), (True, False), (False, False)]
 KINDS = [(t, l, None, ()) for t in ('or', 'and') for l in LABELS] + \
-        [('defense', (True, True), st, tags) for st in (0.0, 0.5, 1.0) for tags in ((), ('suppress',))]
+        [('defense', (True, True), st, tags) for st in (0.0, 0.5, 1.0) for tags in ((), ('suppress',))] + \
+        [('defense', (True, False), 0.0, ())]
+# n = 3: all or/and label combinations, a necessary and an unnecessary (disabled) defense parent, one suppressed enabled defense
+KINDS3 = [k for k in KINDS if k[0] != 'defense'] + [('defense', (True, True), 0.0, ()), ('defense', (True, False), 0.0, ()),
+                                                   ('defense', (False, True), 1.0, ('suppress',))]
 KINDS_SMALL = [('or', (True, True), None, ()), ('or', (False, True), None, ()), ('and', (True, True), None, ()),
                ('and', (True, False), None, ()), ('defense', (True, True), 0.0, ())]
 
@@ -121,6 +125,7 @@ def sequences(n, maxlen):
     return out
 
 
+@common.job
 def _job(job):
     kinds, n, maxlen, noself = job
     kinds = [tuple(k) for k in kinds]
@@ -140,7 +145,7 @@ def _job(job):
 
 def run(tier, seed):
     res = common.Result(PROP, tier, seed, 'model_checking')
-    res.rule = ('synthetic graphs over 14 kinds (or/and with ARBITRARY viable/necessary flags, defenses with status 0/0.5/1 '
+    res.rule = ('synthetic graphs over 15 kinds (11 at n = 3) (or/and with ARBITRARY viable/necessary flags, defenses with status 0/0.5/1 '
                 'and suppress tag) with every edge subset x every compromise sequence of attacker A up to the length bound '
                 '(a second attacker holds node 0); after every compromise: traversability of every node, full surface, '
                 'incrementally updated surface, defense surface, enabled defenses, and graph unchanged by the queries')
@@ -148,7 +153,7 @@ def run(tier, seed):
     for n in (1, 2):
         for kinds in itertools.product(KINDS, repeat=n):
             jobs.append((list(kinds), n, 3, False))
-    for kinds in itertools.combinations_with_replacement(KINDS, 3):
+    for kinds in itertools.combinations_with_replacement(KINDS3, 3):
         jobs.append((list(kinds), 3, 2, False))
     if tier == 'thorough':
         for kinds in itertools.combinations_with_replacement(KINDS, 3):
